@@ -1,7 +1,7 @@
 from props import job
 
 PROP = dict(
-    technique='the C01 state machine with disconnect/reload actions; crash-point enumeration by loading both sides afresh from bbolt after every state-machine call; model-based comparison of the restored state, persisted-vs-memory round trip',
+    technique='the C01 state machine with disconnect/reload and database-write-failure actions; crash-point enumeration by loading both sides afresh from the database (bbolt job and sqlite-kvdb job) after every state-machine call; model-based comparison of the restored state, persisted-vs-memory round trip',
     level="fault_enumeration",
     rule=("C01's generated schedules with cuts; after EVERY state-machine call (each call is one atomic kvdb "
           "write, so this enumerates the crash points of the schedule) both sides are loaded afresh from their "
@@ -15,13 +15,17 @@ PROP = dict(
           "instant) reloads verified. Distinct = distinct (parameters, trace)."),
     assumptions=[
         "each channeldb write is one atomic kvdb transaction (a crash inside a transaction is not simulated)",
-        "bbolt backend only (sqlite/postgres kvdb backends are behind build tags the baseline does not build)",
+        "backends: bbolt, and lnd's SQL-backed kvdb on sqlite (build tag kvdb_sqlite, separate job); the postgres and etcd backends need servers the sandbox does not have",
     ],
     jobs=dict(
         quick=[job("lnwallet", "^TestVerifC02", ["TestVerifC02Reload"], 40, shards=8, timeout=600,
-                   env=dict(VERIF_STEPS=40))],
+                   env=dict(VERIF_STEPS=40)),
+               job("lnwallet", "^TestVerifC02", ["TestVerifC02Reload"], 20, shards=8, timeout=900,
+                   tags="verif kvdb_sqlite", env=dict(VERIF_STEPS=30))],
         thorough=[job("lnwallet", "^TestVerifC02", ["TestVerifC02Reload"], 160, shards=16, timeout=2400,
-                      env=dict(VERIF_STEPS=80))],
+                      env=dict(VERIF_STEPS=80)),
+                  job("lnwallet", "^TestVerifC02", ["TestVerifC02Reload"], 60, shards=16, timeout=2400,
+                      tags="verif kvdb_sqlite", env=dict(VERIF_STEPS=80))],
     ),
     also=["C01"],
 )
